@@ -161,6 +161,10 @@ func ReactScenarios() []History {
 		Ev{Name: "SetWithdrawAddr", Signer: "c1", Addr: "w1"}, // c1 owns no provider
 		Ev{Name: "Bind", Signer: "o2", Svc: "s1", Prov: "o1", Deposit: 40, DShape: "ok", Pr: pr(2), Qos: 1}, // o1's account is o2's provider
 		Ev{Name: "SetWithdrawAddr", Signer: "o2", Addr: "c2"},
+		Ev{Name: "Define", Signer: "o2", Svc: "s2"},
+		Ev{Name: "Bind", Signer: "p1", Svc: "s2", Prov: "p1", Deposit: 40, DShape: "ok", Pr: pr(2), Qos: 1}, // p1 is o1's provider: it cannot bind itself
+		Ev{Name: "Bind", Signer: "p3", Svc: "s2", Prov: "p3", Deposit: 40, DShape: "ok", Pr: pr(2), Qos: 1}, // p3 belongs to nobody yet: it can
+		Ev{Name: "Bind", Signer: "o2", Svc: "s1", Prov: "p3", Deposit: 40, DShape: "ok", Pr: pr(2), Qos: 1}, // ... and is then its own, not o2's
 		Ev{Name: "Call", Signer: "c2", Svc: "s1", Provs: both, Cap: 10, Timeout: 3},                  // 1: c2 holds exactly 8
 		Ev{Name: "ModCreate", Signer: "w1", Svc: "s1", Provs: both, Cap: 10, Timeout: 2, Thr: 1},     // 2: one-shot, of a consumer who holds nothing
 		Ev{Name: "Call", Signer: "c1", Svc: "s1", Provs: []string{"o1", "p1"}, Cap: 10, Timeout: 3}, // 3
@@ -185,7 +189,7 @@ func ReactScenarios() []History {
 		Ev{Name: "Respond", Signer: "c1", Rid: rid(4, 1, 1, 0), Kind: "valid"},
 		Ev{Name: "Withdraw", Signer: "c1"}, // to the address it chose on the old chain
 	)
-	add("odds-and-ends-at-their-boundaries", smallParams(), map[string]int64{"c2": 8, "c1": 200}, ops...)
+	add("odds-and-ends-at-their-boundaries", smallParams(), map[string]int64{"c2": 8, "c1": 200, "p1": 100, "p3": 100}, ops...)
 
 	return hs
 }
